@@ -19,6 +19,8 @@ inductive Op where
   | and (a b : Nat)
   | or (a b : Nat)
   | xor (a b : Nat)
+  | lt (a b : Nat)       -- 1 if a < b else 0   (comparison results; only produced in decision-tree mode)
+  | eq (a b : Nat)       -- 1 if a = b else 0
   deriving Repr, DecidableEq, Inhabited
 
 abbrev Env := List Nat
@@ -37,6 +39,8 @@ def Op.eval (e : Env) : Op → Nat
   | .and a b => get e a &&& get e b
   | .or a b => get e a ||| get e b
   | .xor a b => get e a ^^^ get e b
+  | .lt a b => if get e a < get e b then 1 else 0
+  | .eq a b => if get e a = get e b then 1 else 0
 
 def run : List Op → Env → Env
   | [], e => e
@@ -97,6 +101,8 @@ def Op.abs (a : AEnv) : Op → AVal
       ⟨(aget a x).lo + (aget a y).lo, (aget a x).hi + (aget a y).hi, min (aget a x).tz (aget a y).tz⟩
     else ⟨0, 2^((max (aget a x).hi (aget a y).hi).log2 + 1) - 1, 0⟩
   | .xor x y => ⟨0, 2^((max (aget a x).hi (aget a y).hi).log2 + 1) - 1, 0⟩
+  | .lt _ _ => ⟨0, 1, 0⟩
+  | .eq _ _ => ⟨0, 1, 0⟩
 
 def arun : List Op → AEnv → AEnv
   | [], a => a
@@ -108,7 +114,7 @@ def Sat (e : Env) (a : AEnv) : Prop :=
 /-- variables referenced must be in scope, and bit-op operands must be below 2^4096 (always true here) -/
 def Op.wf (n : Nat) : Op → Bool
   | .const _ => true
-  | .add a b | .mul a b | .and a b | .or a b | .xor a b => a < n && b < n
+  | .add a b | .mul a b | .and a b | .or a b | .xor a b | .lt a b | .eq a b => a < n && b < n
   | .subw a b _ => a < n && b < n
   | .shr a _ | .shl a _ | .low a _ | .wrap a _ => a < n
 
@@ -284,6 +290,12 @@ theorem step_sound (e : Env) (a : AEnv) (h : Sat e a) (op : Op)
     have : get e x ^^^ get e y < 2^((max (aget a x).hi (aget a y).hi).log2 + 1) :=
       Nat.xor_lt_two_pow (by omega) (by omega)
     omega
+  | lt x y =>
+    simp only [Op.abs, Op.eval, AVal.sat]
+    split <;> simp [Nat.mod_one]
+  | eq x y =>
+    simp only [Op.abs, Op.eval, AVal.sat]
+    split <;> simp [Nat.mod_one]
 
 theorem run_sound : ∀ (ops : List Op) (e : Env) (a : AEnv), Sat e a → wfProg a.length ops = true →
     Sat (run ops e) (arun ops a) := by
